@@ -216,6 +216,12 @@ func rsaPool(rnd *mrand.Rand, pairs, perPair int) []poolKey {
 			}
 			seen[key] = true
 			res = append(res, poolKey{Class: class, RSA: k})
+			if cnt == 0 {
+				// the same key as an application may hold it: assembled from N, E, D and the primes, never passed through Precompute
+				bare := &rsa.PrivateKey{PublicKey: rsa.PublicKey{N: new(big.Int).Set(k.N), E: k.E}, D: new(big.Int).Set(k.D),
+					Primes: []*big.Int{new(big.Int).Set(k.Primes[0]), new(big.Int).Set(k.Primes[1])}}
+				res = append(res, poolKey{Class: "no-precompute " + class, RSA: bare})
+			}
 			cnt++
 			if cnt >= perPair {
 				break
@@ -656,6 +662,11 @@ func objTypeName(t kmip.ObjectType) string {
 
 func runRegister(w *world, c Case, k poolKey) []string {
 	var problems []string
+	if k.RSA != nil && strings.HasPrefix(k.Class, "no-precompute") {
+		// a fresh copy every time: the standard library's marshallers call Precompute on the key they are given
+		k.RSA = &rsa.PrivateKey{PublicKey: rsa.PublicKey{N: new(big.Int).Set(k.RSA.N), E: k.RSA.E}, D: new(big.Int).Set(k.RSA.D),
+			Primes: []*big.Int{new(big.Int).Set(k.RSA.Primes[0]), new(big.Int).Set(k.RSA.Primes[1])}}
+	}
 	ex, p := build(w.clients[c.Ver], c, k)
 	if p != "" {
 		return []string{p}
@@ -978,7 +989,9 @@ func makePools() map[string][]poolKey {
 			for _, x := range ks {
 				bi := func(h string) *big.Int { v, _ := new(big.Int).SetString(h, 16); return v }
 				k := &rsa.PrivateKey{PublicKey: rsa.PublicKey{N: bi(x.N), E: x.E}, D: bi(x.D), Primes: []*big.Int{bi(x.P), bi(x.Q)}}
-				k.Precompute()
+				if !strings.HasPrefix(x.Class, "no-precompute") {
+					k.Precompute()
+				}
 				pools["rsa"] = append(pools["rsa"], poolKey{Class: x.Class, RSA: k})
 			}
 		}
